@@ -46,13 +46,23 @@ MutatedBlockClasses == {"blk_mutated_merkle", "blk_mutated_dup", "blk_mutated_wi
 \* of the tip (stored, not validated), undecodable
 QuietBlockClasses == {"blk_valid", "blk_valid_tx", "blk_time_future", "blk_lowwork", "blk_sibling_invalid", "blk_dup_tip", "blk_truncated"}
 ValidBlockClasses == {"blk_valid", "blk_valid_tx"}
+\* WHEN a full block is validated does not depend on the sender: on receipt (all classes above), or later -
+\*   blk_child_first_*  headers A, B (B child of A), then the full block B before A's data: B is stored, not validated;
+\*   blk_parent_arrives / blk_parent_from_elsewhere  A's data arrives (from this peer / not from this peer): A connects, then B is validated;
+\*   blk_side_first_*   a full block on a side branch with as much work as the tip: stored, not validated;
+\*   blk_side_extended  a valid block on top of it: the side branch has more work, the node reorganises and validates the stored block.
+\* (_bad: invalid only when connected, its coinbase pays too much; _ok: valid.) Without a stored block of this peer the three
+\* trigger classes are a plain valid block on the tip.
+StoreFirstClasses == {"blk_child_first_bad", "blk_child_first_ok", "blk_side_first_bad", "blk_side_first_ok"}
+TriggerClasses == {"blk_parent_arrives", "blk_parent_from_elsewhere", "blk_side_extended"}
+DeferredClasses == StoreFirstClasses \cup TriggerClasses
 CmpctClasses == {"cmpct_valid", "cmpct_badpow", "cmpct_invalid_block", "cmpct_bad_prefilled", "cmpct_missing_tx",
                  "cmpct_then_wrong_blocktxn", "cmpct_then_short_blocktxn"}
 OtherClasses == {"hdr_cached_invalid", "blk_cached_invalid", "blk_unknown_prev", "blocktxn_unsolicited", "getblocktxn_oob",
                  "sendcmpct_badflag", "inv_oversize", "getdata_oversize", "getdata_unknown", "addr_oversize", "filterload_any",
                  "ping", "unknown_msg"}
 Classes == TxClasses \cup TxInvClasses \cup BadPowHeaderClasses \cup OtherBadHeaderClasses \cup QuietHeaderClasses \cup
-           InvalidBlockClasses \cup MutatedBlockClasses \cup QuietBlockClasses \cup CmpctClasses \cup OtherClasses
+           InvalidBlockClasses \cup MutatedBlockClasses \cup QuietBlockClasses \cup CmpctClasses \cup OtherClasses \cup DeferredClasses
 
 Peers == [conn: Conns, noban: BOOLEAN, relay: Bools2, local: BOOLEAN, fRelay: Bools2, cmpct: Bools2]
 
@@ -60,10 +70,12 @@ VARIABLES peer, mode,
           out,        \* "none" | "disconnect" | "discourage" (= disconnected and address discouraged)
           hb,         \* the node asked this peer for high-bandwidth compact block relay (m_bip152_highbandwidth_to)
           infl,       \* a block request to this peer is outstanding (mapBlocksInFlight not empty)
+          blockSource,\* the stored, not yet validated full block for which the node remembers this peer as its source (mapBlockSource):
+                      \* "none" | "child_bad" | "child_ok" (waits for its parent) | "side_bad" | "side_ok" (waits for a reorganisation)
           n,          \* messages sent so far
           lastAct, lastRes
-vars == <<peer, mode, out, hb, infl, n, lastAct, lastRes>>
-View0 == <<peer, mode, out, hb, infl, n>>
+vars == <<peer, mode, out, hb, infl, blockSource, n, lastAct, lastRes>>
+View0 == <<peer, mode, out, hb, infl, blockSource, n>>
 
 \* ---------------------------------------------------------------- the code's rules
 \* PeerManagerImpl::RejectIncomingTxs
@@ -73,8 +85,13 @@ Inbound(p) == p.conn = "inbound"
 CmpctOn(m, p) == m = "normal" /\ p.cmpct
 
 \* "none" | "misbehave" (Misbehaving(): m_should_discourage) | "violation" (fDisconnect set directly)
-Effect(m, p, h, c) ==
-  CASE c \in TxClasses \cup TxInvClasses -> IF RejectTx(m, p) THEN "violation" ELSE "none"
+\* the stored block that message c causes to be validated now ("none": nothing)
+Validated(bs, c) == IF c \in {"blk_parent_arrives", "blk_parent_from_elsewhere"} /\ bs \in {"child_bad", "child_ok"} THEN bs
+                    ELSE IF c = "blk_side_extended" /\ bs \in {"side_bad", "side_ok"} THEN bs ELSE "none"
+Effect(m, p, h, bs, c) ==
+  CASE c \in StoreFirstClasses -> "none"                                          \* stored; the sender is remembered in blockSource
+    [] c \in TriggerClasses -> IF Validated(bs, c) \in {"child_bad", "side_bad"} THEN "misbehave" ELSE "none"   \* BlockChecked finds the sender
+    [] c \in TxClasses \cup TxInvClasses -> IF RejectTx(m, p) THEN "violation" ELSE "none"
     [] c \in BadPowHeaderClasses \cup OtherBadHeaderClasses -> "misbehave"
     [] c \in QuietHeaderClasses -> "none"
     [] c \in InvalidBlockClasses \cup MutatedBlockClasses -> "misbehave"
@@ -98,20 +115,22 @@ Punish(p, e) ==
 
 \* classes after which a block request to the peer stays outstanding
 LeavesInFlight(m, p, h, c) ==
-  \/ c = "hdr_valid"
+  \/ c \in {"hdr_valid", "blk_child_first_bad", "blk_child_first_ok"}            \* (the parent A was requested after its header)
   \/ c \in {"cmpct_missing_tx", "cmpct_then_wrong_blocktxn"} /\ CmpctOn(m, p) /\ h
 
 \* ---------------------------------------------------------------- behaviours
 Init ==
   /\ peer \in Peers /\ mode \in Modes
   /\ out = (IF peer.conn = "feeler" THEN "disconnect" ELSE "none")    \* a feeler is dropped as soon as its version message arrives
-  /\ hb = FALSE /\ infl = FALSE /\ n = 0
+  /\ hb = FALSE /\ infl = FALSE /\ blockSource = "none" /\ n = 0
   /\ lastAct = <<"init">> /\ lastRes = [eff |-> "none", must |-> FALSE, never |-> FALSE]
 
 \* the sets the three sentences of the property quantify over
 AllowedTxMsg(m, p, c) == c \in TxClasses \cup TxInvClasses /\ ~RejectTx(m, p)
 Protected(p) == p.noban \/ p.conn = "manual"
 MustPunishClass(c) == c \in InvalidBlockClasses \cup MutatedBlockClasses \cup BadPowHeaderClasses
+\* ... or a full block this peer sent earlier is found invalid now
+MustPunish(bs, c) == MustPunishClass(c) \/ Validated(bs, c) \in {"child_bad", "side_bad"}
 
 Recv(c) ==
   /\ n < MaxLen
@@ -120,23 +139,31 @@ Recv(c) ==
   /\ UNCHANGED <<peer, mode>>
   /\ IF out # "none"
      THEN \* a peer marked for disconnection is not processed any more (ProcessMessages returns early)
-          /\ UNCHANGED <<out, hb, infl>>
+          /\ UNCHANGED <<out, hb, infl, blockSource>>
           /\ lastRes' = [eff |-> "ignored", must |-> FALSE, never |-> TRUE]
-     ELSE LET e == Effect(mode, peer, hb, c) IN
+     ELSE LET e == Effect(mode, peer, hb, blockSource, c) IN
           /\ out' = Punish(peer, e)
+          /\ blockSource' = (CASE c = "blk_child_first_bad" -> "child_bad" [] c = "blk_child_first_ok" -> "child_ok"
+                               [] c = "blk_side_first_bad" -> "side_bad" [] c = "blk_side_first_ok" -> "side_ok"
+                               [] Validated(blockSource, c) # "none" -> "none"            \* consumed by BlockChecked
+                               [] OTHER -> blockSource)
           /\ infl' = (infl \/ LeavesInFlight(mode, peer, hb, c))
-          /\ hb' = (hb \/ (c \in ValidBlockClasses /\ CmpctOn(mode, peer) /\ ~infl))
+          /\ hb' = (hb \/ (c \in ValidBlockClasses \cup TriggerClasses /\ CmpctOn(mode, peer) /\ ~infl))
           /\ lastRes' = [eff |-> e,
-                         must |-> (MustPunishClass(c) /\ ~Protected(peer)),
+                         must |-> (MustPunish(blockSource, c) /\ ~Protected(peer)),
                          never |-> (AllowedTxMsg(mode, peer, c) \/ (Protected(peer) /\ e # "violation"))]
 
-Next == \E c \in Classes : Recv(c)
-\* the table (first message: everything) plus, for peers the node has made high-bandwidth compact block peers, every second message
-NextTable == \E c \in Classes : (n = 0 \/ hb) /\ Recv(c)
+\* (sequences: the deferred-validation classes are explored exhaustively by the table run instead)
+Next == \E c \in Classes \ DeferredClasses : Recv(c)
+\* the table (first message: everything) plus every second message of a peer the node has made a high-bandwidth compact block peer
+\* or of which it holds a stored, not yet validated block
+\* (after a stored block: the messages that trigger its validation, another stored block, and a few unrelated ones)
+AfterStore == DeferredClasses \cup {"blk_valid", "hdr_valid", "tx_valid", "blk_cb_amount", "ping"}
+NextTable == \E c \in Classes : (n = 0 \/ hb \/ (blockSource # "none" /\ c \in AfterStore)) /\ Recv(c)
 Spec == Init /\ [][Next]_vars
 
 \* ---------------------------------------------------------------- the property (checked on every transition)
-TypeOK == out \in {"none", "disconnect", "discourage"} /\ hb \in BOOLEAN /\ infl \in BOOLEAN /\ n \in 0..MaxLen
+TypeOK == out \in {"none", "disconnect", "discourage"} /\ blockSource \in {"none", "child_bad", "child_ok", "side_bad", "side_ok"} /\ hb \in BOOLEAN /\ infl \in BOOLEAN /\ n \in 0..MaxLen
 
 \* 1. no transaction message from a peer that may send transactions changes the peer's standing
 TxNeverPunished == [][\A c \in Classes : (lastAct' = <<"recv", c>> /\ AllowedTxMsg(mode, peer, c)) => out' = out]_vars
@@ -146,7 +173,8 @@ ProtectedNeverPunished == [][Protected(peer) => /\ out' # "discourage"
                                                 /\ (out' # out => lastRes'.eff = "violation")]_vars
 \* 3. any other peer whose full block is invalid, or whose headers carry invalid proof of work, is disconnected, and discouraged
 \*    unless its address is local
-InvalidBlockPunished == [][\A c \in Classes : (lastAct' = <<"recv", c>> /\ out = "none" /\ MustPunishClass(c) /\ ~Protected(peer))
+\*    - whenever the block is validated: on receipt, when its parent arrives, or when a reorganisation reaches it
+InvalidBlockPunished == [][\A c \in Classes : (lastAct' = <<"recv", c>> /\ out = "none" /\ MustPunish(blockSource, c) /\ ~Protected(peer))
                                               => out' = (IF peer.local THEN "disconnect" ELSE "discourage")]_vars
 \* the flags handed to the replay agree with the sentences
 FlagsOK == [][/\ (lastRes'.never => out' = out)
